@@ -190,6 +190,14 @@ pub fn run(ctx: &Ctx, rep: &mut Report) {
         let rbr: Vec<char> = if rng.chance(1, 2) { vec![')', '）'] } else { vec![']', '」'] };
         let maxy = 1 + rng.below(5);
         p.yomigana_cfg = Some((lbr.clone(), rbr.clone(), maxy));
+        // every third world: the class table also files ideographs outside the basic plane (4 bytes in UTF-8) and a
+        // few two-byte letters under KANJI; the yomigana rule speaks of the class, not of a byte width
+        if wi % 3 == 1 {
+            if let Ok(base) = std::fs::read_to_string(crate::env::repo_root().join("resources").join("char.def")) {
+                p.char_def = Some(format!("{}\n0x20000..0x2A6DF KANJI\n0x00E0..0x00E5 KANJI\n", base.trim_end()));
+                rep.count("tables_with_kanji_of_other_byte_widths", 1);
+            }
+        }
         let world = match guard(|| build_world_from(&mut rng, &dopts, matrix, sys, p, Place::Owned)) {
             Ok(Ok(w)) => w,
             Ok(Err(e)) => {
@@ -277,7 +285,7 @@ pub fn run(ctx: &Ctx, rep: &mut Report) {
             for _ in 0..rng.below(6) {
                 match rng.below(4) {
                     0 | 1 => {
-                        ytxt.push_str(rng.s(&["漢", "字", "京", "々", "〇", "a", "あ", "カ", "𠮷", "一"]));
+                        ytxt.push_str(rng.s(&["漢", "字", "京", "々", "〇", "a", "あ", "カ", "𠮷", "一", "𠮷", "𩸽", "à", "å"]));
                         if rng.chance(3, 4) {
                             ytxt.push(*rng.pick(&['(', '（', '[', '「', ')', '）']));
                             for _ in 0..rng.below(7) {
